@@ -13,6 +13,7 @@ import GrcovModel.Lemmas.LcovWriter
 import GrcovModel.Lemmas.LcovIterate
 import GrcovModel.Props.C04
 import GrcovModel.Props.C05Rewrite
+import GrcovModel.Props.C05Cli
 namespace Grcov.Props.C05
 open Grcov AList Grcov.Lcov Grcov.Lcov.Spec
 
